@@ -1405,9 +1405,9 @@ fn main() {
             (Kind::Task, Load::TaskCmd(2)),
             (Kind::Thread, Load::Messages(2)),
             (Kind::Thread, Load::Messages(4)),
-            // every attach position x gap of a captured stateful run with a tool call, and of a stateless thread-started one
-            (Kind::Session, Load::Agent(agent::Conf { capture: 1, stateless: false, tools: 1, choice: 0, outcome: 0, followup: false, parallel: false, via_thread: false }.bits())),
-            (Kind::Session, Load::Agent(agent::Conf { capture: 1, stateless: true, tools: 0, choice: 0, outcome: 1, followup: true, parallel: false, via_thread: false }.bits())),
+            // (last: the first to go when the time budget is reached) every record / publish attach position of a captured
+            // stateless run with a tool call
+            (Kind::Session, Load::Agent(agent::Conf { capture: 1, stateless: true, tools: 1, choice: 0, outcome: 0, followup: true, parallel: false, via_thread: false }.bits())),
         ]);
     }
     let repo_root = a.repo();
@@ -1448,7 +1448,7 @@ fn main() {
             // later), a third after the end; nobody reads before the end
             cases.push(Case { kind: Kind::Session, load: load.clone(), subs: 3, sched: agent_sched(start, t, false, &[(1, at(2), 0), (2, at(recs.len() * 2 / 3), 9)], 3, 0, 0), others: 0, reads: 0, loss: 0, probe: false, cap: 0 });
             n_matrix += 2;
-            for _ in 0..(if thorough { 3 } else { 0 }) {
+            for _ in 0..(if thorough { 2 } else { 0 }) {
                 let a1 = r.range(start as u64, t as u64) as usize;
                 let a2 = r.range(start as u64, t as u64) as usize;
                 let reads = r.range(0, 3) as usize;
@@ -1535,7 +1535,7 @@ fn main() {
         pos.extend(trace.iter().enumerate().filter(|(_, p)| relevant(p)).map(|(i, _)| i + 1));
         pos.push(t + 1);
         res.notes.push(format!("{} {}: {} producer points, {} attach positions", kind.name(), load.label(), t, pos.len()));
-        let reach = if matches!(load, Load::Agent(_)) { 2 } else if thorough { 7 } else { 4 };
+        let reach = if matches!(load, Load::Agent(_)) { 1 } else if thorough { 7 } else { 4 };
         for (ia, a_) in pos.iter().enumerate() {
             for ib in ia..pos.len() {
                 // gap states: snapshot while the producer is at the same position, at one of the next few, or finished
